@@ -1,0 +1,7 @@
+//go:build !verif
+
+package pass1
+
+import "github.com/HobbyOSs/gosk/internal/ast"
+
+func verifStmt(phase int, env *Pass1, stmt ast.Statement) {}
